@@ -746,6 +746,10 @@ func (w *c20World) do(a c20Action) string {
 		// reaches its first hook (the two model actions closeG ; gStore cannot be separated on the
 		// real code: there is no hook between the channel receive and the store)
 		g := w.gBlocked()
+		if g == nil {
+			w.fail("no release goroutine is waiting for a retirement")
+			return "closeg ; gstore"
+		}
 		g.blocked = false
 		ret := w.rets[g.ret]
 		if !ret.released {
@@ -757,6 +761,10 @@ func (w *c20World) do(a c20Action) string {
 	case "gend", "gread", "gwrite":
 		kind := map[string]string{"gend": "end", "gread": "get", "gwrite": "set"}[a.name]
 		g := w.gAt(kind)
+		if g == nil {
+			w.fail("no release goroutine is parked at hook " + kind)
+			return op
+		}
 		p := g.park
 		g.park = nil
 		expectPark := kind == "end" || (kind == "get" && strings.HasPrefix(c20ProgClass(w.progPath), "busy"))
@@ -916,8 +924,20 @@ func c20RunSeq(t *testing.T, out *VStream, dir string, regions *c20Regions, r *V
 	s := &c20Seq{w: w, out: out}
 	out.Emit("reset", w.state())
 	s.nOps++
-	body(s)
-	w.drainQuiet()
+	func() {
+		defer func() {
+			if e := recover(); e != nil {
+				w.fail(fmt.Sprint("harness panic: ", e))
+				out.Emit("quiet?", w.state())
+				s.nOps++
+			}
+		}()
+		body(s)
+	}()
+	func() {
+		defer func() { _ = recover() }()
+		w.drainQuiet()
+	}()
 	if w.desync != "" {
 		st.Inc("DESYNC")
 	}
